@@ -469,7 +469,15 @@ def desugar(F):
                     elif act[0] == 'false':
                         rv = {'k': 'use', 'ops': [{'k': 'const', 'ty': 'bool', 'v': 0, 'dbg': 'false'}]}
                     else:
-                        rv = _agg(act[1], t['args'][1]) if act[1] else {'k': 'use', 'ops': [t['args'][1]]}
+                        a1 = t['args'][1]
+                        rv = _agg(act[1], a1) if act[1] else {'k': 'use', 'ops': [a1]}
+                        # the default was built eagerly (`x.map_or(Ok(()), ..)`): rebuild it where it is used, so that "where
+                        # the returned value is made" is the branch that returns it
+                        if not act[1] and a1['k'] != 'const' and not a1['p']['proj']:
+                            dfs = [st for blk2 in b.blocks for st in blk2['stmts'] if st['dst']['l'] == a1['p']['l']]
+                            cfs = [1 for blk2 in b.blocks if blk2['term']['k'] == 'call' and blk2['term'].get('dst', {}).get('l') == a1['p']['l']]
+                            if len(dfs) == 1 and not cfs and not dfs[0]['dst']['proj'] and dfs[0]['rv']['k'] == 'agg':
+                                rv = copy.deepcopy(dfs[0]['rv'])
                     entry[v] = len(b.blocks)
                     b.blocks.append({'stmts': [dict(pos, dst=dst, rv=rv)], 'cleanup': False, 'term': dict(pos, k='goto', target=target)})
             for cb_ in clos.values():
